@@ -312,7 +312,7 @@ class Prop(Check):
     THEOREMS = ["Rec.C24_bisim_sound", "Rec.C24_accept_iff", "Rec.C24_not_both", "Rec.C24_tables", "Rec.C24_check",
                 "Rec.C24_agree_partial", "Rec.C24_sep_forms_differ"]
     DRIVER = "Drivers/Rec.lean"
-    QUICK_CASES = 300
+    QUICK_CASES = 200
     THOROUGH_CASES = 6000
     CASE_TIMEOUT = 30
     RULE = ("grammar texts over the full textX syntax (imports, references with alias, rule parameters, sequences, choices, "
